@@ -198,6 +198,23 @@ def r05_2(run, model):
                     ok = True
         run.ob("R05.2", "resolve_expr|EPath|locals before definitions and builtins", ok, site(NR, arm["sp"]), detail,
                witness="a local named like a top-level function would refer to the function")
+        # the package's own definitions before the by-name intrinsics: an if whose condition asks def_names and whose else-branch
+        # (not its then-branch) asks builtin_names
+        ok2 = False
+        for iff in S.find(arm["body"], "If"):
+            cond_d = [c for c in S.walk(iff["cond"]) if c["k"] == "MethodCall" and c["method"] == "get" and c["recv"]["k"] == "Field" and c["recv"]["member"] == "def_names"]
+            els = iff.get("else")
+            if cond_d and els is not None:
+                inner = {c["recv"]["member"] for c in S.walk(els) if c["k"] == "MethodCall" and c["method"] == "get" and c["recv"]["k"] == "Field"}
+                if "builtin_names" in inner:
+                    # and no test of builtin_names guards this if from outside
+                    par_ = S.Parents(arm["body"])
+                    outer = [a for a in par_.ancestors(iff) if a["k"] == "If" and any(
+                        c["k"] == "MethodCall" and c["method"] == "get" and c["recv"]["k"] == "Field" and c["recv"]["member"] == "builtin_names" for c in S.walk(a["cond"]))]
+                    ok2 = not outer
+        run.ob("R05.2", "resolve_expr|EPath|definitions of the package before builtins", ok2, site(NR, arm["sp"]), detail,
+               witness="package Lib defines fn vec_len(v: Vec[int32]) -> int32 { .. } and calls it unqualified: the call is captured by the intrinsic "
+                       "(lowered to len(v)), the user's function is pruned as dead code")
 
 
 def paired_in_block(run, model, rel, rule):
